@@ -427,7 +427,7 @@ func firstRepoFrame(stack string) string {
 // ---- the check --------------------------------------------------------------------------------------
 
 const c40Rule = "each case runs in a child process of the -race test binary: a memory hierarchy (seeded access agent -> write-back cache -> ideal memory controller, 400–650 reads and as many writes, " +
-	"one of 4 presets) built by simulation.MakeBuilder() with the monitor on (free port taken from the monitor's own announcement), engine.Run() on one goroutine while the parent process issues 30–70 " +
+	"one of 4 presets) built by simulation.MakeBuilder() with the monitor on (free port taken from the monitor's own announcement), engine.Run() on one goroutine while the parent process issues (once the first event has been handled) 30–70 " +
 	"drawn requests over loopback HTTP to the real routes /api/pause, /api/continue, /api/engine/state, /api/now, /api/tick/<comp>, /api/list_components, /api/component/<comp>, " +
 	"/api/field/<json> (existing and missing fields, with and without slice paging), /api/hangdetector/buffers (sort/limit/offset), /api/progress, /api/mode, /api/trace/is_tracing with drawn gaps " +
 	"(0–3 ms) and Gosched counts, GOMAXPROCS 2/3/4/8, always ending with continue. (The client is not in the simulation process so that no harness-side synchronisation can reach the HTTP handler " +
@@ -468,7 +468,7 @@ func TestC40Monitor(t *testing.T) {
 		t.Skip()
 	}
 
-	kit.SetChecks(14, 100)
+	kit.SetChecks(14, 120)
 	rapid.Check(t, func(rt *rapid.T) {
 		c, steered := genC40(rt, c40Menu, excluded)
 		if steered {
@@ -765,6 +765,7 @@ type c40ConcStats struct {
 	inFlightTogether      int // mid-run requests that were in flight together with a request of another client
 	pauseMidSlow          int // a pause was sent while Slow's handler still had >= 200 us to run, and answered after it ended
 	inspectDuringPending  int // inspections of another client sent while such a pause was in flight and the handler still had >= 100 us to run
+	inspectOverlapPending int // inspections of another client in flight (send..receive) together with such a pause
 	inspectMidSlow        int // inspections sent while Slow's handler had >= 200 us to run (their own Pause has to wait)
 	inspectPausedByOther  int // inspections sent and answered while the engine was held by a completed pause of another client
 	slowSpans, slowLongMS int
@@ -841,8 +842,14 @@ func c40ConcJudge(res c40Result) c40ConcStats {
 		}
 		st.pauseMidSlow++
 		for _, q := range mid {
-			if q.Client != p.Client && c40IsInspection(q.Kind) && q.SendNS > p.SendNS && end-q.SendNS >= 100_000 {
+			if q.Client == p.Client || !c40IsInspection(q.Kind) {
+				continue
+			}
+			if q.SendNS > p.SendNS && end-q.SendNS >= 100_000 {
 				st.inspectDuringPending++
+			}
+			if q.SendNS < p.RecvNS && p.SendNS < q.RecvNS {
+				st.inspectOverlapPending++
 			}
 		}
 	}
@@ -895,18 +902,11 @@ func TestC40Overlap(t *testing.T) {
 		}
 		s.AddExtra("monitored_ms_total", int(v.Res.MonMS))
 		st := c40ConcJudge(v.Res)
-		if os.Getenv("C40DEV") != "" {
-			fmt.Fprintf(os.Stderr, "DEV base=%dms mon=%dms run=%dms probe=%v clients=%d every=%d events=%d slow=%d\n", v.Res.BaseMS, v.Res.MonMS, (v.Res.RunEndNS-v.Res.RunStartNS)/1e6, c.Probe, len(c.Clients), c.SlowEvery, v.Res.Mon.Events, v.Res.Mon.Slow)
-		}
 		stamp := fmt.Sprintf("[%d clients, %d requests mid-run, %d Slow spans (%d >= 1 ms), pauses sent mid-Slow-handler: %d, inspections sent while such a pause was pending: %d]",
 			st.clientsMidRun, st.mid, st.slowSpans, st.slowLongMS, st.pauseMidSlow, st.inspectDuringPending)
 
 		known := false
 		for _, rr := range v.Child.Races {
-			if os.Getenv("C40DEV_NORACE") != "" {
-				fmt.Fprintf(os.Stderr, "DEV race ignored: %s %s\n", c40RaceSig(rr), stamp)
-				continue
-			}
 			s.Fail(f, c, c40RaceSig(rr), "data race: %s %s\n%s", rr.detail(), stamp, head(rr.Raw, 3500))
 			known = true
 		}
@@ -984,6 +984,7 @@ func TestC40Overlap(t *testing.T) {
 		add(st.inFlightTogether, "requests-of-different-clients-in-flight-together")
 		add(st.pauseMidSlow, "pause-sent-mid-handler-answered-after-it")
 		add(st.inspectDuringPending, "inspection-sent-while-pause-pending-mid-handler")
+		add(st.inspectOverlapPending, "inspection-in-flight-together-with-pause-pending-mid-handler")
 		add(st.inspectMidSlow, "inspection-sent-mid-handler")
 		add(st.inspectPausedByOther, "inspection-while-paused-by-other-client")
 		add(v.Res.SlowTicks, "slow-ticked-through-monitor")
@@ -1010,6 +1011,7 @@ func TestC40Overlap(t *testing.T) {
 		s.AddExtra("requests_served_midrun", st.mid)
 		s.AddExtra("pauses_sent_mid_slow_handler", st.pauseMidSlow)
 		s.AddExtra("inspections_sent_while_pause_pending", st.inspectDuringPending)
+		s.AddExtra("inspections_in_flight_with_pending_pause", st.inspectOverlapPending)
 		s.AddExtra("inspections_while_paused_by_other_client", st.inspectPausedByOther)
 		s.AddExtra("slow_spans", st.slowSpans)
 		s.Note(c, st.clientsMidRun >= 2 && st.pauseMidSlow > 0, cl...)
@@ -1028,7 +1030,7 @@ func TestC40Overlap(t *testing.T) {
 		t.Skip()
 	}
 
-	kit.SetChecks(10, 80)
+	kit.SetChecks(10, 60)
 	rapid.Check(t, func(rt *rapid.T) {
 		c, steered := genC40Conc(rt, excluded)
 		if steered {
